@@ -401,6 +401,18 @@ def _generic_stats(run, hist, stats):
                     n_cancel += 1
             elif kind == 'exc' and not h.is_sched:
                 n_raise += 1
+                if h.spec.get('crit_method'):
+                    bump('fault:raised_by_job_defining_is_critical')
+                if h.spec.get('exc_type') == 'timeout':
+                    bump('fault:job_raised_TimeoutError')
+                elif h.spec.get('exc_base'):
+                    bump('fault:job_raised_BaseException')
+            elif kind == 'scancel':
+                bump('fault:job_ended_with_own_CancelledError')
+            elif kind == 'cexc':
+                bump('fault:job_raised_from_cancellation_handler')
+            elif kind == 'cret':
+                bump('fault:job_returned_from_cancellation_handler')
         n_sdcancel += len(h.sd_cancel)
         n_again += len(h.cancel_again)
     bump('fault:job_raised', n_raise)
